@@ -142,6 +142,27 @@ D = {
  ('percentDecodeChar','index:encoded[0]'):S('percentDecodeChar:encoded[0]'),
  ('percentDecodeChar','index:encoded[1]'):S('percentDecodeChar:encoded[1]'),
  ('percentDecodeChar','index:encoded[2]'):S('percentDecodeChar:encoded[2]'),
+ ('responseCache.insert','lencheck:len(entry.responseData) > h.maxBytes'):T('sanity check (model: HttpCache.insert)'),
+ ('responseCache.insert','defer:h.mux.Unlock'):T('the mutex is released on every return; a loop that does not terminate keeps it for ever'),
+ ('responseCache.insert','for:h.head != nil && h.currentSizeBytes + len(entry.responseData) > h.maxBytes'):T('every iteration pops one entry off a non-empty expiry list: measure = its length (httpcache_make_room_terminates); without `h.head != nil` the loop spins on an empty list (httpcache_unguarded_loop_spins)'),
+ ('responseCache.insert','nilcheck:h.head == nil'):T('test'),
+ ('responseCache.insert','for:current.next != nil && current.next.expirationTime.Before(entry.expirationTime)'):T('walks the acyclic expiry list (model: structural recursion insertAfterHead)'),
+ ('responseCache.insert','indexw:h.entriesByURL[entry.requestURL.String()]'):T('entriesByURL is made by newCache, never nil'),
+ ('responseCache.insert','index:h.entriesByURL[entry.requestURL.String()]'):T('map read'),
+ ('responseCache.pop','nilcheck:h.head == nil'):T('guard of h.head.requestURL: pop on an empty list changes nothing (model: HttpCache.pop)'),
+ ('responseCache.pop','index:h.entriesByURL[requestURL]'):T('map read'),
+ ('responseCache.pop','range:entries'):T('bounded loop'),
+ ('responseCache.pop','indexw:h.entriesByURL[requestURL]'):T('entriesByURL is made by newCache, never nil'),
+ ('responseCache.pop','slice:entries[:i]'):T('i ranges over entries'),
+ ('responseCache.pop','slice:entries[i + 1:]'):T('i ranges over entries: i+1 <= len'),
+ ('responseCache.pop','lencheck:len(h.entriesByURL[requestURL]) == 0'):T('test'),
+ ('responseCache.removeExpiredEntries','for:current != nil'):T('every iteration pops the head or breaks (model: structural recursion removeExpired)'),
+ ('responseCache.get','defer:h.mux.Unlock'):T('released on return'),
+ ('responseCache.get','index:h.entriesByURL[httpRequest.URL.String()]'):T('map read'),
+ ('responseCache.get','range:entries'):T('bounded loop'),
+ ('CachingRoundTripper.RoundTrip','nilcheck:response != nil'):T('test'),
+ ('CachingRoundTripper.RoundTrip','rec:r.wrappedTransport.RoundTrip'):T('not a self call: the wrapped transport (same method name)'),
+ ('CachingRoundTripper.cacheResponse','lencheck:len(reasons) > 0'):T('test'),
 }
 # functions that are NOT (or only partly) inside a model: every partial operation is listed with the harness entry point that samples it
 SAMPLED = {}
